@@ -156,13 +156,24 @@ func (r *Refs) RenameBranch(rootGoitPath, curBranchName, newBranchName string) e
 
 	// rename branch
 	r.Heads[curNum].Name = newBranchName
+	renamed := r.Heads[curNum]
 	sort.Slice(r.Heads, func(i, j int) bool { return r.Heads[i].Name < r.Heads[j].Name })
 
-	// rename file
-	oldPath := filepath.Join(rootGoitPath, "refs", "heads", curBranchName)
-	newPath := filepath.Join(rootGoitPath, "refs", "heads", newBranchName)
-	if err := os.Rename(oldPath, newPath); err != nil {
-		return fmt.Errorf("fail to rename file: %w", err)
+	// write the file of the new name first; the file of the old name is removed by
+	// RemoveRenamedBranch after HEAD was switched over, so that at every moment
+	// HEAD names an existing branch
+	if err := renamed.write(rootGoitPath); err != nil {
+		return fmt.Errorf("fail to write branch: %w", err)
+	}
+
+	return nil
+}
+
+// RemoveRenamedBranch removes the file of the old name of a branch renamed by RenameBranch.
+func (r *Refs) RemoveRenamedBranch(rootGoitPath, oldBranchName string) error {
+	oldPath := filepath.Join(rootGoitPath, "refs", "heads", oldBranchName)
+	if err := os.Remove(oldPath); err != nil {
+		return fmt.Errorf("fail to remove file: %w", err)
 	}
 
 	return nil
